@@ -265,6 +265,12 @@ def r8_ack_confirms_recorded_tick(ctx):
     C11.r2_ack(ctx)
 
 
+def r20_unconditional_mutators(ctx):
+    """Mutators this property relies on always perform their effect (shared table in rules/mutators.py)."""
+    import rules.mutators as mutators
+    mutators.run_for(ctx, "C02")
+
+
 RULES = [
     ("C02.R1", "the confirmed tick moves only forward on the mutate path", r1_monotone, 6, ["default", "all-features", "client-only"]),
     ("C02.R2", "stale mutate data is never written over newer state", r2_no_stale_write, 7, ["default", "all-features", "client-only"]),
@@ -274,5 +280,6 @@ RULES = [
     ("C02.R6", "mutate messages are acknowledged only when consumed, so skipped-as-outdated data was really superseded (same rule as C11.R4)", r6_ack_when_consumed, 8, ["default", "all-features", "client-only"]),
     ("C02.R7", "recycled acknowledgement entity lists are empty when reused (same rule as C11.R6)", r7_ack_list_pool, 1, ["default", "all-features", "server-only"]),
     ("C02.R8", "an acknowledgement confirms the recorded (sent) tick of the recorded entities, forward only (same rule as C11.R2)", r8_ack_confirms_recorded_tick, 6, ["default", "all-features", "server-only"]),
+    ("C02.R20", "mutators this property relies on always perform their effect (rules/mutators.py): no early return, no guard outside the allowed set", r20_unconditional_mutators, 1, ["default", "all-features"]),
 ]
 THOROUGH_CONFIGS = ["default", "all-features", "server-only", "client-only"]
